@@ -85,6 +85,15 @@ def build_fixture(base: str) -> list:
         os.symlink("nothing", j(base, parent, "dangling"))
         os.symlink(j("nodir", "nothing"), j(base, parent, "dangling_deep"))
         os.symlink("f6/below", j(base, parent, "dangling_through_file"))
+    # ".." right after a symlink to a directory ELSEWHERE and after a regular file: the kernel resolves the link first
+    # (W/link/.. is <base>/real, not W) and refuses to step through a file; a textual normalisation gets both wrong
+    os.makedirs(j(base, "real", "sub"))
+    for name in ("target.txt", "sub/inner.txt", "d7"):
+        with open(j(base, "real", name), "w") as f:
+            f.write("x")
+        os.chmod(j(base, "real", name), 0o644)
+    for parent in ("W", "RO"):
+        os.symlink("../real/sub", j(base, parent, "link"))
     for d in ("LOCK", "LOCKW"):
         with open(j(base, d, "in"), "w") as f:
             f.write("x")
@@ -111,7 +120,17 @@ def build_fixture(base: str) -> list:
             probes.append((f"{parent}/{name}", base, None, False, f"{name} in {parent}"))
     for name in ("LOCK/in", "LOCK/new", "LOCK/sub/in", "LOCK/sub/new", "LOCK/no/new", "LOCKW/in", "LOCKW/new", "LOCKW/sub/in", "LOCKW/no/new", "LOCK", "LOCKW"):
         probes.append((name, base, None, False, "behind a directory that uid nobody cannot search"))
+    for parent in ("W", "RO"):
+        for name, note in (("link/../target.txt", "exists behind the link's parent, not beside the link"), ("link/../f6", "exists beside the link, not behind it"),
+                           ("link/..", "the link's parent directory"), ("link/../sub/inner.txt", "back through the link's parent"), ("link/../d7", "a file behind, a directory beside"),
+                           ("link/../missing", "missing on both sides"), ("link/../d7/new", "below a file behind, below a directory beside"),
+                           ("f6/../f5", "dotdot after a regular file: not a directory for the kernel"), ("f6/../d7", "dotdot after a regular file"),
+                           ("f6/../missing", "dotdot after a regular file, missing"), ("ln_d7/../f6", "dotdot after a link to a sibling directory: same place either way")):
+            probes.append((f"{parent}/{name}", base, None, False, note))
     probes += [
+        ("link/../target.txt", j(base, "W"), None, False, "dotdot after a symlinked directory, from inside"), ("link/../f6", j(base, "RO"), None, False, "dotdot after a symlinked directory, from inside"),
+        ("link/..", j(base, "W"), None, False, "the link's parent, from inside"), ("link/../target.txt", base, j(base, "RO"), False, "dotdot after a symlinked directory, cwd= argument"),
+        ("f6/../f5", j(base, "W"), None, False, "dotdot after a regular file, from inside"), ("W/link/../target.txt", base, None, True, "os.PathLike with dotdot after a symlinked directory"),
         (".", base, None, False, "dot"), ("..", j(base, "W"), None, False, "dotdot"), ("W", base, None, False, "dir"), ("W/", base, None, False, "dir with slash"),
         ("./W/f6", base, None, False, "./ spelling"), ("W/../RO/f4", base, None, False, ".. inside"), ("../RO/f5", j(base, "W"), None, False, "relative from another cwd"),
         ("f3", j(base, "RO"), None, False, "bare name"), ("f6", j(base, "RO"), j(base, "W"), False, "cwd= argument wins over the process cwd"),
@@ -216,7 +235,9 @@ def probe_child(conn, base, probes, modes, strs, seed, drop):
                 want = os.fspath(given)
                 rel = x.relative == want and str(x) == want and x(absolute=False) == want and sorted(x.mode) == sorted(md)
                 ab = facts[pi][0]
+                # the location is the one the KERNEL resolves the spelling to: realpath / samefile, never a textual normalisation
                 absok = sp == "-" or (os.path.isabs(x.absolute) and os.path.realpath(x.absolute) == os.path.realpath(ab)
+                                      and (not os.path.exists(ab) or (os.path.exists(x.absolute) and os.path.samefile(x.absolute, ab)))
                                       and x() == x.absolute and os.fspath(x) == x.absolute)
                 out["obs"].append((mi, pi, md, "accept", "", bool(rel), bool(absok)))
         for si, s in strs:
